@@ -39,7 +39,8 @@ def unit_axis(n, desc=False):
 
 
 def nearest_idx(ax, n, p):
-    d = [abs(p - (ax["o"] + i * ax["s"])) for i in range(n)]
+    step = ax["s"] if not ax.get("res") else (ax["res"] if ax["s"] > 0 else -ax["res"])   # a `res` attr wins
+    d = [abs(p - (ax["o"] + i * step)) for i in range(n)]
     m = min(d)
     return [i for i in range(n) if d[i] == m]
 
@@ -116,7 +117,8 @@ def realise(cross, H, W, style):
 def mkjob(H, W, cross, conn, yax, xax, sp, gp, snapS=0, snapG=0, events=False, tag="", style=0, dtype=None):
     vals, barriers = realise(cross, H, W, style)
     j = {"H": H, "W": W, "vals": vals, "barriers": barriers, "conn": conn, "yax": yax, "xax": xax,
-         "sp": list(sp), "gp": list(gp), "snapS": snapS, "snapG": snapG, "events": events, "tag": tag}
+         "sp": list(sp), "gp": list(gp), "snapS": snapS, "snapG": snapG, "events": events, "tag": tag,
+         "_cross": cross}
     if dtype:
         j["dtype"] = dtype
     return j
@@ -388,6 +390,68 @@ def snap_jobs(shapes):
     return jobs
 
 
+# ---- input variation: memory layout, dtype, dims, point types, `res` attr, repeated calls
+LAYOUTS = ["C", "F", "T", "strided", "rev"]
+DTYPES = ["int8", "uint8", "int16", "int32", "int64", "uint64", "float32", "float64"]
+# per dtype: (barrier list, values placed on walls, values of crossable cells).  Every list also holds values
+# that are NOT representable in the dtype (they must match nothing) next to representable ones, out of order;
+# 16777217 / 16777216 differ only beyond float32 precision.
+INT_PALETTES = {
+    "int8": [([100, -7, 300, 2.5, -129], [-7, 100], [0, 1, 2, -1, 50, 127, -128, 44]),
+             ([3, 1], [1, 3], [0, 2, 4, -3])],
+    "uint8": [([200, 7, 300, -1, 2.5], [7, 200], [0, 1, 2, 3, 100, 255, 44]),
+              ([9, 256, 4], [4, 9], [0, 1, 5, 8, 10])],
+    "int16": [([30000, -7, 40000, 0.5], [-7, 30000], [0, 1, -1, 300, -300, 32767]),
+              ([5, 1, 5], [1, 5], [0, 2, 3, 4])],
+    "int32": [([16777217, 7, -3, 2 ** 31, 1.5], [7, 16777217, -3], [16777216, 16777218, 0, 1, 8, -4]),
+              ([2, 1], [1, 2], [0, 3, 4])],
+    "int64": [([2 ** 40 + 1, 16777217, -5, 0.25], [-5, 16777217, 2 ** 40 + 1], [2 ** 40, 16777216, 0, 1, 6, -6]),
+              ([8, 3], [3, 8], [0, 1, 2, 4])],
+    "uint64": [([16777217, 2 ** 40 + 1, -1, 7.5], [16777217, 2 ** 40 + 1], [2 ** 40, 16777216, 0, 1, 7, 8]),
+               ([6, 2], [2, 6], [0, 1, 3, 5])],
+}
+FLOAT_EXTRA = ([0.1, 7, 2.5], [7, 2.5], [0.1, 1, 2, 0.2, 2.25])     # 0.1 is a wall in float64, matches nothing in float32
+DIMS = [("y", "x"), ("lat", "lon"), ("x", "y"), ("row", "col"), ("y", "x")]
+
+
+def variant_jobs(rng, pool, n, dtypes=None):
+    """n jobs drawn from the other groups' jobs, each re-issued with another memory layout, dtype (values from a
+    palette of that dtype), dims names, point type, optionally a `res` attribute that disagrees with the
+    coordinates (1.5 x the spacing) and earlier calls on the same surface object"""
+    out = []
+    dtypes = dtypes or DTYPES
+    for k in range(n):
+        b = dict(rng.choice(pool))
+        H, W, cross = b["H"], b["W"], b["_cross"]
+        j = dict(b, events=False, tag="variants:" + b["tag"].split(":")[0])
+        j["layout"] = LAYOUTS[k % len(LAYOUTS)]
+        j["dtype"] = dt = dtypes[(k // len(LAYOUTS) + k) % len(dtypes)]
+        if dt in INT_PALETTES or rng.random() < 0.3:
+            barriers, placed, free = rng.choice(INT_PALETTES[dt]) if dt in INT_PALETTES else FLOAT_EXTRA
+            ph = rng.randrange(7)
+            j["vals"] = [[(free[(i * 3 + ph) % len(free)] if cross[i // W][i % W] else placed[(i * 5 + ph) % len(placed)])
+                          for i in range(r * W, (r + 1) * W)] for r in range(H)]
+            j["barriers"] = list(barriers)
+        j["ydim"], j["xdim"] = DIMS[rng.randrange(len(DIMS))]
+        yax, xax = dict(b["yax"]), dict(b["xax"])
+        sp, gp = list(b["sp"]), list(b["gp"])
+        if rng.random() < 0.2:
+            # res = 1.5 x spacing on both axes (never puts a point midway, never outside); axes rescaled by 2
+            # so that the numerator is an integer.  The scalar form needs equal cell sizes.
+            yax = {"den": 2 * yax["den"], "o": 2 * yax["o"], "s": 2 * yax["s"], "res": 3 * abs(yax["s"])}
+            xax = {"den": 2 * xax["den"], "o": 2 * xax["o"], "s": 2 * xax["s"], "res": 3 * abs(xax["s"])}
+            sp, gp = [2 * sp[0], 2 * sp[1]], [2 * gp[0], 2 * gp[1]]
+            same = Fraction(yax["res"], yax["den"]) == Fraction(xax["res"], xax["den"])
+            j["resform"] = rng.choice(["tuple", "list", "ndarray"] + (["scalar"] if same else []))
+        j["yax"], j["xax"], j["sp"], j["gp"] = yax, xax, sp, gp
+        integral = all(p[0] % yax["den"] == 0 and p[1] % xax["den"] == 0 for p in (sp, gp))
+        j["ptype"] = rng.choice(["tuple", "list", "ndarray", "np_f64", "np_f32"] + (["np_int", "int"] if integral else []))
+        if rng.random() < 0.3:
+            j["pre"] = [[gp, sp]] + ([[sp, sp]] if rng.random() < 0.5 else [])
+        out.append(j)
+    return out
+
+
 # ----------------------------------------------------------------------------- judging
 def strip(case):
     return {k: v for k, v in case.items() if k not in ("job", "raw", "tag", "error", "same_input")}
@@ -457,7 +521,7 @@ def report(ctx, tally, key, clause, case, what):
         ctx.known_hits[key] = ctx.known_hits.get(key, 0) + 1
 
 
-def process(ctx, tally, groups, name, interp=False, chunk=40000, flush_at=120000):
+def process(ctx, tally, groups, name, interp=False, chunk=40000, flush_at=120000, nproc=None):
     """groups = [(kind, jobs)]: run the jobs through the real code (one worker pool per flush: every worker
     process pays the import and the JIT compilation once), let TLC judge the observations"""
     pend = []
@@ -469,8 +533,8 @@ def process(ctx, tally, groups, name, interp=False, chunk=40000, flush_at=120000
         if not jobs:
             return
         # few worker processes / JVMs for small batches: every process pays import + JIT (~5 CPU-s) once
-        nproc = 16 if len(jobs) > 100000 else (8 if len(jobs) > 8000 else 4)
-        cases = run_real(ctx, jobs, interp, nproc)
+        np_ = nproc or (16 if len(jobs) > 100000 else (8 if len(jobs) > 8000 else 4))
+        cases = run_real(ctx, jobs, interp, np_)
         keep = [i for i, c in enumerate(cases) if not c.get("skipped")]
         if len(keep) < len(jobs):
             ctx.note("%d jobs were not executed: calls kept hanging in the worker processes" % (len(jobs) - len(keep)))
@@ -603,9 +667,9 @@ def run(ctx):
 
 def run_code(ctx, tally, rng):
     # ---- R + T through the compiled public function
-    # quick: a seeded quarter of the 3x3 space (thorough: all of it, and 2x4, 2x5)
+    # quick: a seeded fifth of the 3x3 space (thorough: all of it, and 2x4, 2x5)
     rgrids = ctx.pick([(3, 3)], [(3, 3), (2, 4), (2, 5)])
-    k, of = ctx.pick((1, 4), (1, 1))
+    k, of = ctx.pick((1, 5), (1, 1))
     groups = [("R", layout_jobs(H, W, (4, 8), tag="replay_layouts", desc=(H == 2), keep=k, of=of, seed=ctx.seed))
               for (H, W) in rgrids]
     # snapping on the 3x3 space (quick: a seeded twelfth)
@@ -627,7 +691,18 @@ def run_code(ctx, tally, rng):
                                                       (7, 10), (9, 7)]), extra=ctx.pick(1, 3))))
     groups.append(("T-snap", snap_jobs(ctx.pick([(3, 3), (2, 5), (4, 5)],
                                                 [(3, 3), (2, 5), (4, 5), (5, 5), (2, 7), (6, 4)]))))
+    groups.append(("R", layout_jobs(2, 2, (4, 8), tag="replay_layouts", desc=True, descx=True)))
     process(ctx, tally, groups, "compiled")
+    # input variation on a seeded sample of every group above (few processes: every (dtype, layout) pair is one
+    # more JIT signature, ~1 CPU-s each per process)
+    pool = [j for _, js in groups for j in js]
+    # quick: compiled for three of the eight dtypes (rotating with the seed: a narrow int, a wide int, a float),
+    # all eight interpreted (steps pool below)
+    dts = ctx.pick([DTYPES[ctx.seed % 3], DTYPES[3 + ctx.seed % 3], DTYPES[6 + ctx.seed % 2]], DTYPES)
+    process(ctx, tally, [("T-variants", variant_jobs(rng, pool, ctx.pick(320, 8000), dts))], "variants",
+            nproc=ctx.pick(1, 8))
+    small = [j for j in pool if j["H"] * j["W"] <= 30]
+    vint = variant_jobs(rng, small, ctx.pick(240, 2000))
 
     # ---- step level: every pop of the interpreted search against the model (quick: a seeded 1/32 of 3x3)
     k, of = ctx.pick((1, 32), (1, 1))
@@ -636,6 +711,7 @@ def run_code(ctx, tally, rng):
     if ctx.tier == "thorough":
         groups.append(("R-steps", layout_jobs(2, 4, (4, 8), events=True, tag="replay_steps", desc=True)))
     groups.append(("T-steps", maze_jobs(rng, ctx.pick(60, 1500), [(3, 4), (4, 3), (2, 6)], events=True)))
+    groups.append(("T-variants", vint))
     process(ctx, tally, groups, "steps", interp=True, flush_at=60000)
 
     ctx.extra["violations_by_key"] = tally.by_key
